@@ -47,6 +47,12 @@ def scenarios(tier, seed=0):
         for zcn in ([0.25] if tier == "quick" else [0.25, 0.3]):
             spec = A.catalogue_spec(name, word="hot", soil="ClayLoam", soilkw={"z_cn": zcn, "z_germ": 0.45}, end="2003/04/20")
             yield {"kind": "spec", "spec": spec, "label": ["thermal", name, zcn]}
+    # degree-day methods 1 and 2 (keyword override) under a word with days outside [Tbase, Tupp], 3 seasons
+    for name in (["MaizeGDD", "WheatGDD"] if tier == "quick" else names):
+        for meth in (1, 2):
+            spec = A.catalogue_spec(name, word="hot", soil="Loam", cropkw={"GDDmethod": meth}, end="2004/04/20",
+                                    dev=[[d, "F"] for d in (400, 401, 790)] + [[d, "T"] for d in (405, 406, 795)])
+            yield {"kind": "spec", "spec": spec, "label": ["thermal-method", name, meth]}
     for name in (["Maize", "Cotton"] if tier == "quick" else ["Maize", "Cotton", "Wheat", "Sunflower", "Soybean"]):
         spec = A.catalogue_spec(name, word="showers", soil="Loam", soilkw={"z_cn": 0.45, "z_germ": 0.25}, off=True, end="2001/12/30")
         yield {"kind": "spec", "spec": spec, "label": ["deepened", name]}
